@@ -2,7 +2,7 @@
 From Coq Require Extraction.
 From Coq Require Import ExtrOcamlBasic.
 From Coq Require Import ZArith QArith List.
-From RLV Require Import Model.Logger Model.Buffers Model.BufferRun Model.Persist Model.Num Model.PrioNum Model.Checkpointing Model.Tabular Model.Tensor Model.Blocks Model.Returns Model.Dual Model.Losses Model.Heads Model.Greedy.
+From RLV Require Import Model.Logger Model.Buffers Model.BufferRun Model.Persist Model.Num Model.PrioNum Model.Checkpointing Model.Tabular Model.Tensor Model.Blocks Model.Returns Model.Dual Model.Losses Model.Heads Model.Greedy Model.BlackBox.
 Extraction Language OCaml.
 Extraction "../build/ocaml/model.ml"
   (* base *) Nat.add Qred Qplus Qmult Qminus Qdiv Qopp Qle_bool Qeq_bool
@@ -15,4 +15,5 @@ Extraction "../build/ocaml/model.ml"
   (* Returns *) reward_to_go compute_gae n_step_return a2c_batch ppo_gae ppo_flat_gae zip4
   (* Losses *) dual_ops dual_sg ddpg_loss td3_loss sac_loss td3_lap_loss td7_target td7_critic_loss mrq_loss dqn_loss ddqn_loss ddqn_per_loss sale_loss
   (* Heads *) softmax cat_logprob cat_entropy gauss_std gauss_logpdf gauss_entropy gauss_sample tanh_scaled half_range mid_range eps_greedy dqn_choice greedy_net
+  (* BlackBox *) cma_config cma_weights cma_init next_parameters set_feedback cma_update cma_hsig_lhs argsort top_k xsum eye diag cem_sample cem_update cem_elites flat_params set_params
   (* Persist *) rb_crash lap_crash sb_crash sbp_crash mtl_crash mtu_crash orbax_restore orbax_reload load_pickle save_pickle restore_checkpoint.
